@@ -41,11 +41,18 @@ func verifHarnessC18() {
 			db = vStep(db, opts, kp, m, ops, "C18.pre")
 		}
 		verifAssert(db.Merge() == nil, "C18.premerge-err")
-		verifAssert(db.Close() == nil, "C18.premerge-close-err")
-		db, err = Open(opts)
-		verifAssert(err == nil, "C18.premerge-reopen-err")
-		verifSameMapping(db, kp, m, "C18.after-first-adoption")
-		verifReach("second-generation")
+		if verifParam("prestay") == 1 {
+			// the first merge is never adopted: the process stays up and merges again over the leftover
+			// (finished, un-adopted) merge directory of the first
+			verifSameMapping(db, kp, m, "C18.after-first-merge")
+			verifReach("second-merge-over-leftover-directory")
+		} else {
+			verifAssert(db.Close() == nil, "C18.premerge-close-err")
+			db, err = Open(opts)
+			verifAssert(err == nil, "C18.premerge-reopen-err")
+			verifSameMapping(db, kp, m, "C18.after-first-adoption")
+			verifReach("second-generation")
+		}
 	}
 	for step := 0; step < verifParam("k"); step++ {
 		db = vStep(db, opts, kp, m, ops, "C18")
